@@ -174,7 +174,7 @@ func init() {
 	}
 	sup.Register(&sup.Check{
 		Prop: "C09", Level: "exploration",
-		Rule: "(snapshot) engine A: at quiescent points Dump feeds are started from start CAS in {0, a median CAS, the maximum, maximum+1, the touched key's CAS} (every fourth one KeysOnly) and compared with the current read-back of every key: bracketed by the markers, in CAS order, exactly the documents (tombstones included) with CAS >= start, once each, every field equal to what a live event for that state carries and, where the live feed delivered the same version (CAS, RevNo), equal field by field to that live event; (join) a backfill+live feed is started while 2-6 writers run and the feed.registered hook parks the starter between end of backfill and registration until further writes have been acknowledged; after a fence the newest event received for every key must be its final version; cell = (variant, pre-state, outcome, bucket type) / (writers, writes inside the window)",
+		Rule: "(snapshot) engine A: at quiescent points Dump feeds are started from start CAS in {0, a median CAS, the maximum, maximum+1, the touched key's CAS} (every fourth one KeysOnly) and compared with the current read-back of every key: bracketed by the markers, in CAS order, exactly the documents (tombstones included) with CAS >= start, once each, every field equal to what a live event for that state carries and, where the live feed delivered the same version (CAS, RevNo), equal field by field to that live event; (join) a backfill+live feed is started while 2-6 writers run and the feed.registered hook parks the starter between end of backfill and registration until further writes have been acknowledged; after a fence the newest event received for every key must be its final version; (large backfill) 260-340 documents with groups of 2-3 sharing one CAS at fixed and PRNG positions, dumps from 0 / median / each group's CAS / CAS+1; cell = (variant, pre-state, outcome, bucket type) / (writers, writes inside the window)",
 		Assumptions: kvAssume,
 		Parts: append(c09SeqParts(),
 			mk("C09", "large-backfill", 40, 800, false, func(c *sup.Ctx, r *rng.R, _ []string) { largeBackfillScenario(c, r) }),
@@ -193,7 +193,7 @@ func init() {
 	})
 	sup.Register(&sup.Check{
 		Prop: "C15", Level: "exploration",
-		Rule: "1-6 writers (regular API) run while a feed with a checkpoint prefix in resume mode is started through alternating handles, allowed a PRNG-chosen number of callbacks (the callback parks on a channel so events stay queued), stopped by its terminator, its checkpoint document read, 3-8 times; then a Dump resume run catches up; oracle: the checkpoint's last_seq never exceeds the highest CAS the feed delivered so far, the final version (read-back CAS) of every key is in the union of the runs' deliveries, and the newest version delivered for a key describes its final state (deletion iff it has no body, the same body bytes); while the feed is stopped, keys of their own are re-created over tombstones that earlier runs already delivered and checkpointed (Add, AddRaw, WriteCas 0, Set, WriteResurrectionWithXattrs, Update) and never touched again, so only a resume can deliver their final version; (two collections) one bucket-level feed over two collections with one ID and checkpoint prefix is run, stopped after a PRNG-chosen number of callbacks and resumed while both collections are written between the runs: every document of either collection is delivered by some run and each collection's checkpoint stays at or below what was delivered for it; schedule noise at the commit->post hook; also under the race detector; cell = (writers, restarts, stops while writers active, bucket type)",
+		Rule: "1-6 writers (regular API) run while a feed with a checkpoint prefix in resume mode is started through alternating handles, allowed a PRNG-chosen number of callbacks (the callback parks on a channel so events stay queued), stopped by its terminator, its checkpoint document read, 3-8 times; then a Dump resume run catches up; oracle: the checkpoint's last_seq never exceeds the highest CAS the feed delivered so far, the final version (read-back CAS) of every key is in the union of the runs' deliveries, and the newest version delivered for a key describes its final state (deletion iff it has no body, the same body bytes); while the feed is stopped, keys of their own are re-created over tombstones that earlier runs already delivered and checkpointed (Add, AddRaw, WriteCas 0, Set, WriteResurrectionWithXattrs, Update) and never touched again, so only a resume can deliver their final version; (two collections) one bucket-level feed over two collections with one ID and checkpoint prefix is run, stopped after a PRNG-chosen number of callbacks and resumed while both collections are written between the runs: every document of either collection is delivered by some run and each collection's checkpoint stays at or below what was delivered for it; schedule noise at the commit->post hook; also under the race detector; (neighbour feed) plain live feeds registered before / after the checkpointed one, one of them stopped by its terminator, then two writes, stop, resumed dump: both must have been delivered; cell = (writers, restarts, stops while writers active, bucket type)",
 		Assumptions: []string{"the checkpoint document itself is excluded from the must-deliver set (it is written by the feed)", "stops are sampled at PRNG-chosen callback counts, not at every queue position"},
 		Parts: []sup.Part{
 			mk("C15", "checkpoint-restarts", 1500, 30000, false, checkpointScenario),
